@@ -58,7 +58,7 @@ def stream_attr(P, cls):
     raise AnalysisError('%s.__init__ does not store its stream parameter' % cls.name)
 
 
-def stream_ops(P, fi, attr):
+def stream_ops(P, fi, attr, _depth=0):
     """(call node, method name) for every method call on the stream role in fi
     (self.<attr>.m(...) or alias = self.<attr>; alias.m(...))."""
     first = fi.params()[0] if fi.params() else None
@@ -74,11 +74,44 @@ def stream_ops(P, fi, attr):
             v = n.func.value
             if _is_self_attr(v, first, attr) or (isinstance(v, ast.Name) and v.id in aliases):
                 out.append((n, n.func.attr))
-    # any other use of the stream (passed along, stored) is reported as 'escape'
+    # the stream handed to a module-level helper of the package: what the helper does with that parameter counts as
+    # done by this function (a method that only forwards to a shared utility keeps its role)
     for n in walk_no_nested(fi.node):
-        if _is_self_attr(n, first, attr) or (isinstance(n, ast.Name) and n.id in aliases and isinstance(n.ctx, ast.Load)):
-            pass
+        if not (isinstance(n, ast.Call) and isinstance(n.func, (ast.Name, ast.Attribute))):
+            continue
+        passed = [(i, a) for i, a in enumerate(n.args) if _is_self_attr(a, first, attr) or (isinstance(a, ast.Name) and a.id in aliases)]
+        passed_kw = [(kw.arg, kw.value) for kw in n.keywords if kw.arg and (_is_self_attr(kw.value, first, attr) or
+                                                                            (isinstance(kw.value, ast.Name) and kw.value.id in aliases))]
+        if not passed and not passed_kw:
+            continue
+        try:
+            g = P.resolve_call(fi, n, self_cls=fi.cls)
+        except Exception:
+            g = None
+        g = g[0] if isinstance(g, list) and len(g) == 1 else g
+        if isinstance(g, FunctionInfo) and g.cls is None and _depth < 2:
+            gp = g.params()
+            for i, _a in passed:
+                if i < len(gp):
+                    out += _param_stream_ops(P, g, gp[i], _depth + 1)
+            for k, _a in passed_kw:
+                if k in gp:
+                    out += _param_stream_ops(P, g, k, _depth + 1)
     return out, aliases
+
+
+def _param_stream_ops(P, g, pname, depth):
+    out = []
+    aliases = {pname}
+    for n in walk_no_nested(g.node):
+        if isinstance(n, ast.Assign) and isinstance(n.value, ast.Name) and n.value.id in aliases:
+            for t in n.targets:
+                if isinstance(t, ast.Name):
+                    aliases.add(t.id)
+    for n in walk_no_nested(g.node):
+        if isinstance(n, ast.Call) and isinstance(n.func, ast.Attribute) and isinstance(n.func.value, ast.Name) and n.func.value.id in aliases:
+            out.append((n, n.func.attr))
+    return out
 
 
 def _is_self_attr(n, first, attr):
